@@ -1333,3 +1333,8 @@ fn unsigned_as_usize_bits(n: u64) -> [usize; USIZE_BITS] {
     }
     bits
 }
+
+#[cfg(feature = "verif_hooks")]
+pub(crate) fn verif_unsigned_as_usize_bits(n: u64) -> [usize; USIZE_BITS] {
+    unsigned_as_usize_bits(n)
+}
